@@ -12,7 +12,9 @@ CHECKS = {
         level="exploration",
         text=("Seeded simulated histories of assignments (identical, equal-not-identical, NaN, "
               "raising ==, numpy, None, rejected values, trait_set with several names, default "
-              "reads, constructor keywords) on a generated class with traits over 7 kinds x 3 "
+              "reads, constructor keywords, quiet trait_set) on a generated class (with 0-2 subclass "
+              "levels, an overriding static handler, decorated handlers that carry a static "
+              "handler's name) with traits over 7 kinds x 3 "
               "comparison modes and static, decorator and dynamic handlers of all three "
               "mechanisms (arity 0-4, bound methods, priority, dispatch same/ui/new). The "
               "simulator owns thread identity, the UI queue and dispatch='new' threads, so "
@@ -35,7 +37,8 @@ CHECKS = {
               "Dict(CInt, List(Int)), List(Instance), List(Checked) with a fault-point "
               "validator): every mutator of the quantifier on every container and on the nested "
               "inner containers with valid/convertible/invalid items and arbitrary indices and "
-              "slices, whole-value assignment, pickle restart and deepcopy/clone fork with the "
+              "slices, argument shapes (list/tuple/generator/iterator/map), dict.update's "
+              "keyword form, whole-value assignment, del of the trait, pickle restart and deepcopy/clone fork with the "
               "history continuing on the restored object. After every op all containers must "
               "equal a plain-Python model, every element must pass an independent predicate, "
               "and a rejected op must raise TraitError (or the built-in's own class when it is "
@@ -100,7 +103,9 @@ CHECKS = {
               "*_items, +metadata, '*', optional traits; text and expression-object forms; "
               "dispatch same/ui under the simulated scheduler). Every graph op - link "
               "reassignment with sharing and cycles, every container mutator with duplicates "
-              "(incl. slices that keep or repeat current items), equal-list reassignment, default materialisation, gc and drop of nodes - is "
+              "(incl. slices that keep or repeat current items), equal-list reassignment, del of "
+              "link and container traits, add_trait on a name the node has already, the same "
+              "function registered from two roots, default materialisation, gc and drop of nodes - is "
               "followed by a probe of every pool object; a plain-Python model recomputes the "
               "matched set from scratch and each change must call each handler exactly once iff "
               "matched with notify on, with the right event object/name/old/new and container "
@@ -163,7 +168,7 @@ CHECKS = {
               "insertion; 40 % of the worlds use value-object nodes) over child / children / table "
               "/ group (Set) links: an extended name of 1-3 links, "
               "each '.' or ':', is registered once through on_trait_change (handler arity 0, 3 or "
-              "4) and once through observe for the corresponding expression. Link reassignment, "
+              "4; 1 or 2 where traits accepts it) and once through observe for the corresponding expression. Link reassignment, "
               "list, dict and set mutators, container reassignment, gc, drop of detached nodes and "
               "removal of both registrations at a generated point; after every op every object "
               "ever created is probed. Oracle: for every probe legacy called <=> observe called "
@@ -181,7 +186,7 @@ CHECKS = {
         level="exploration",
         text=("Crash/restart property. Seeded simulated histories on a pool of objects with "
               "transient traits, ReadOnly, copy metadata (ref/shallow/deep), bounded and nested "
-              "containers, Dict of lists, Instance graphs (shared, cyclic), declared observers, "
+              "containers, Dict of lists, Instance graphs (shared, cyclic), a Set of objects, declared observers, "
               "name_items handlers and a cached observed property. At generated points the "
               "whole pool is restarted (pickle protocols 2-5) or forked (deepcopy) and single "
               "objects are cloned (clone_traits deep/None/shallow, deepcopy); each copy is "
@@ -210,7 +215,8 @@ CHECKS = {
               "generated class and a subclass overriding defaults, with sixteen default kinds "
               "(constant, list/dict copy, List/Dict/Set objects, factory, _name_default, Tuple "
               "and Union with List/Set/Dict members incl. a nested Tuple, Instance with args, a "
-              "default whose post_setattr hook fails on the first read): reads and re-reads, "
+              "default whose post_setattr hook fails on the first read, a never-compared trait, a "
+              "trait definition object shared with an unrelated class): reads and re-reads, "
               "in-place mutation of default containers (also nested in the Tuple), valid and "
               "invalid assignments, registering/removing on_trait_change and observe handlers "
               "(copy-on-write instance traits; each handler tagged with the instance it was "
@@ -239,7 +245,7 @@ CHECKS = {
               "'*' with __prefix__ declared in the class, inherited with everything else or "
               "inherited from a mixin - and two-level chains through an intermediate object) to "
               "2-3 candidate delegates: valid and invalid assignments through the deferring "
-              "object, assignments on any candidate, swapping the delegate and the chain links, "
+              "object, assignments on any candidate, swapping the delegate (also by way of None) and the chain links, "
               "deleting local values, gc, drop of former delegates, pickle restart, with "
               "on_trait_change and observe handlers on a generated subset of the deferring "
               "attributes. A pointer-following model is checked after every op: every deferring "
@@ -280,8 +286,8 @@ CHECKS = {
               "sync_trait links (mutual and one-way, aliases, several partners, chains) added "
               "and removed at generated points, assignments on any side, every list mutator "
               "incl. extended slices, sort, reverse, *=, whole-list assignment, gc, and drop+gc "
-              "of a partner between ops or from inside a change handler while a propagation is "
-              "in flight. A model propagates each real change along the directed link graph "
+              "of a partner between ops, from inside a change handler while a propagation is "
+              "in flight, or while sync_trait hands over the first value. A model propagates each real change along the directed link graph "
               "(only through nodes it really changes). After every op all objects must hold "
               "what the link graph says (mutual sides equal; one-way target equal to the source "
               "after source assignments, source untouched by target ops), no handler may be "
@@ -303,7 +309,8 @@ CHECKS = {
         text=("Histories of 3-14 documented-API calls are sampled by seed over a world with every "
               "callback site of the statement: custom validators, a two-alternative Union, "
               "_name_default and factory defaults, property getter/setter, cached observed "
-              "property, List/Dict/Set item validators at the k-th item, a stand-alone TraitList, "
+              "property, a depends_on property whose getter fails while traits notifies its "
+              "listeners, List/Dict/Set item validators at the k-th item, a stand-alone TraitList, "
               "Supports with a two-factory adapter chain, delegation, a PrototypedFrom attribute, "
               "quiet assignments (trait_setq), observed child links, an "
               "attribute kept equal on two objects by sync_trait (its partner-side validation "
@@ -335,8 +342,9 @@ CHECKS = {
               "oracles ignored), an adversarial world (re-entrant handlers that "
               "register/unregister handlers, add/remove traits, delete attributes and clear the "
               "dictionary of the object being notified, edit notifier lists during dispatch, "
-              "values whose __del__ re-enters while C code drops them, raising callbacks, gc "
-              "storm with threshold (1,1,1)) and out-of-range / mistyped / truncated "
+              "values whose __del__ re-enters while C code drops them, self-targeting re-entrancy "
+              "that replaces / removes the trait or re-binds the delegate being accessed, raising "
+              "callbacks, gc storm with threshold (1,1,1)) and out-of-range / mistyped / truncated "
               "CTrait.__getstate__() tuples fed to __setstate__. The oracle is the process: any "
               "sanitizer report, signal or abort is triaged to the in-flight run, minimised in "
               "child interpreters and reported with the sanitizer report attached. (ref) Normal "
